@@ -304,7 +304,7 @@ class Delegate:
 
 
 class Client:
-    def __init__(self, world, name, delegated=True, appid="appid", versions=None, dilation=False):
+    def __init__(self, world, name, delegated=True, appid="appid", versions=None, dilation=False, auto_get=True):
         self.world = world
         self.name = name
         self.clock = world.clock
@@ -321,7 +321,27 @@ class Client:
         self.side = self.boss._side
         self.svc = self.rc._connector
         self.deferred_results = {}
+        self.rx_log = []        # server messages delivered to this client, in order
+        self.closed_when = None
         world.clients.append(self)
+        if not delegated and auto_get:
+            self._auto_get()
+
+    def _auto_get(self):
+        """deferred API: ask for every event up front and record firing order in self.ev (like a delegate)"""
+        names = [("get_welcome", "welcome"), ("get_code", "code"), ("get_unverified_key", "key"),
+                 ("get_verifier", "verifier"), ("get_versions", "versions")]
+        for meth, tag in names:
+            d = getattr(self.w, meth)()
+            d.addCallbacks(lambda r, tag=tag: self.ev.append((tag,) if tag == "welcome" else
+                                                             ((tag, json.dumps(r, sort_keys=True)) if tag == "versions" else (tag, r))),
+                           lambda f, tag=tag: self.ev.append(("failed:" + tag, f.type.__name__)))
+
+        def next_msg():
+            d = self.w.get_message()
+            d.addCallbacks(lambda m: (self.ev.append(("message", m)), next_msg()),
+                           lambda f: self.ev.append(("failed:message", f.type.__name__)))
+        next_msg()
 
     # -- guarded entry points -------------------------------------------------
     def _call(self, what, f, *a, **kw):
@@ -355,6 +375,7 @@ class Client:
         self._call("ws_close", self.rc.ws_close, True, 1000, "dropped")
 
     def rx(self, msg):
+        self.rx_log.append(msg)
         self._call("ws_message:" + msg.get("type", "?"), self.rc.ws_message, dict_to_bytes(msg))
 
     def rx_next(self):
@@ -392,7 +413,9 @@ class Client:
                      C=self.boss._C, T=self.boss._T)
         o = names[machine]
         tr = getattr(o, type(o).m._symbol, None)
-        return tr._state.method.__name__ if tr is not None else "<initial>"
+        if tr is not None:
+            return tr._state.method.__name__
+        return type(o).m._automaton.initialState.method.__name__
 
     def closed_events(self):
         return [e for e in self.ev if e[0] == "closed"]
